@@ -350,6 +350,19 @@ fn load_token_trivia(
         }
     }
 
+    #[cfg(stylua_verif)]
+    crate::verif_hooks::record(
+        "load_token_trivia",
+        format!(
+            "{:?} {} {} {} {}",
+            format_token_type,
+            matches!(ctx.config().line_endings, crate::LineEndings::Windows),
+            shape.indent().block_indent() + shape.indent().additional_indent(),
+            crate::verif_hooks::describe_trivia_list(current_trivia.iter().copied()),
+            crate::verif_hooks::describe_trivia_list(token_trivia.iter())
+        ),
+    );
+
     token_trivia
 }
 
